@@ -391,6 +391,10 @@ func c13run(r *report.Run) {
 			lits = append(lits, strconv.Quote(s), `"`+s+`"`)
 		}
 	}
+	// raw strings containing carriage returns (Go discards them) and other control bytes
+	for _, raw := range []string{"a\rb", "l1\r\nl2", "\r", "x\r\r\ny\r", "tab\there", "bell\x07char"} {
+		lits = append(lits, "`"+raw+"`")
+	}
 	var chars []string
 	for _, e := range []string{`\a`, `\b`, `\f`, `\n`, `\r`, `\t`, `\v`, `\\`, `\'`, `a`, `é`, `€`, `🐐`, `"`, `0`, ` `, `\x00`, `\x41`, `\xff`, `\000`, `\101`, `\377`, `A`, `é`, `€`, `￿`, `\U0001f410`, `\U0010ffff`} {
 		chars = append(chars, "'"+e+"'")
@@ -463,6 +467,51 @@ func c13run(r *report.Run) {
 			}
 		}
 	})
+	// the same body spelled as a raw and as an interpreted literal in ONE program, and in two Evals on ONE VM
+	for _, body := range []string{`\n`, `\t`, `a\tb`, `\x41`, `\\`, `\u00e9`, `\101`, `q\"q`, `plain`, `\r\n`} {
+		interp := `"` + body + `"`
+		raw := "`" + body + "`"
+		iv, err := strconv.Unquote(interp)
+		if err != nil {
+			r.HarnessError("literal %s is not valid Go: %v", interp, err)
+			continue
+		}
+		rv, _ := strconv.Unquote(raw)
+		want := fmt.Sprintf("%d %d %v %d %d", len(iv), len(rv), iv == rv, len(iv+rv), len(rv+iv))
+		for _, prog := range []string{
+			"a := " + interp + "\nb := " + raw + "\nfmt.Println(len(a), len(b), a == b, len(a+b), len(b+a))\n",
+			"b := " + raw + "\na := " + interp + "\nfmt.Println(len(a), len(b), a == b, len(a+b), len(b+a))\n",
+			"func fa() string {\n\treturn " + interp + "\n}\nfunc fb() string {\n\treturn " + raw + "\n}\nfmt.Println(len(fa()), len(fb()), fa() == fb(), len(fa()+fb()), len(fb()+fa()))\n",
+		} {
+			m := goat.New()
+			res := m.Eval(nil, "import \"fmt\"\n"+prog)
+			got := strings.TrimSpace(res.Out)
+			if res.Failed() {
+				got = res.String()
+			}
+			m.Close()
+			r.Eval(1)
+			r.Nontrivial("both spellings " + prog)
+			if got != want {
+				r.Fail(&report.Case{Kind: "program", Key: "import \"fmt\"\n" + prog, Want: want, Got: got})
+			}
+		}
+		// two Evals on one VM: a function compiled first must keep returning its own literal
+		m := goat.New()
+		imports := map[string]string{}
+		r1 := m.Eval(nil, "import \"fmt\"\nfunc first() string {\n\treturn "+interp+"\n}\n", goatlang.WithEvalImports(imports))
+		r2 := m.Eval(nil, "second := "+raw+"\nfmt.Println(len(first()), len(second), first() == second)\n", goatlang.WithEvalImports(imports))
+		got := strings.TrimSpace(r2.Out)
+		if r1.Failed() || r2.Failed() {
+			got = r1.String() + r2.String()
+		}
+		m.Close()
+		r.Eval(1)
+		w2 := fmt.Sprintf("%d %d %v", len(iv), len(rv), iv == rv)
+		if got != w2 {
+			r.Fail(&report.Case{Kind: "two-evals", Key: "first() returns " + interp + "; a later Eval uses " + raw, Want: w2, Got: got})
+		}
+	}
 	r.Set("strings", len(strs))
 	r.Set("literals", len(lits)+len(chars))
 }
@@ -470,6 +519,17 @@ func c13run(r *report.Run) {
 func c13rerun(c *report.Case) (bool, string) {
 	m := goat.New()
 	defer m.Close()
+	if c.Kind == "program" {
+		res := m.Eval(nil, c.Key)
+		got := strings.TrimSpace(res.Out)
+		if res.Failed() {
+			got = res.String()
+		}
+		return got != c.Want, got
+	}
+	if c.Kind == "two-evals" {
+		return true, "re-run bin/check C13 quick (two-step case)"
+	}
 	if c.Kind == "literal" {
 		res := m.Eval(nil, c.Key)
 		got := "error"
